@@ -20,6 +20,10 @@ Notation rec_ok_alh_len := (RecordProofs.rec_ok_alh_len H H_len).
 
 Definition dts (h : list trec) (d : N) : N := len (raws (firstn (N.to_nat d) h)).
 
+(* the commit log between sync cycles: nothing pending but, after an open that found a partial last
+   entry, the truncation that drops it *)
+Definition cpre (o : N) (p : list pw) : Prop := p = [] \/ p = [PT o].
+
 Record Inv (nv : nat) (s : st) (h : list trec) (d : N) : Prop := mkInv {
   v_cfg : c_prealloc (s_cfg s) = false /\ 0 < c_thld (s_cfg s);
   v_nv : length (vls s) = nv;
@@ -42,12 +46,12 @@ Record Inv (nv : nat) (s : st) (h : list trec) (d : N) : Prop := mkInv {
            take (44 * committed s) (durable (cml s)) = entries (firstn (N.to_nat (committed s)) h);
   v_cph : match phase_ s with
           | PC t => t = precommitted s /\ d = precommitted s /\ committed s < precommitted s /\
-                    stream_from (44 * committed s) (fstream (cml s)) /\
+                    pstream (44 * committed s) (fstream (cml s)) /\
                     concat_w (fstream (cml s)) = entries (skipn (N.to_nat (committed s)) h) /\
                     f_offset (cml s) = 44 * precommitted s
-          | PV done => pending (cml s) = [] /\ buf (cml s) = [] /\ bufoff (cml s) = 44 * committed s /\
+          | PV done => cpre (44 * committed s) (pending (cml s)) /\ buf (cml s) = [] /\ bufoff (cml s) = 44 * committed s /\
                        (NoDup done /\ Forall (fun v => (v < nv)%nat) done) /\ committed s < precommitted s
-          | PIdle => pending (cml s) = [] /\ buf (cml s) = [] /\ bufoff (cml s) = 44 * committed s
+          | PIdle => cpre (44 * committed s) (pending (cml s)) /\ buf (cml s) = [] /\ bufoff (cml s) = 44 * committed s
           end;
   v_aht : AInv (c_thld (s_cfg s)) (aht_of s) /\ asize s <= precommitted s
 }.
@@ -119,7 +123,7 @@ Proof.
   constructor; unfold precommitted, dts, AInv, aht_of;
     cbn [s_cfg vls txl cml ahd ahc committed pbuf palh pts acked phase_ asize alatest acnt length
          a_d a_c a_size a_latest a_cnt N.to_nat firstn skipn map];
-    try (cbn; repeat split; auto; try lia; try constructor; fail).
+    try (cbn; unfold cpre; repeat split; auto; try lia; try constructor; fail).
   apply repeat_length.
 Qed.
 
@@ -201,7 +205,7 @@ Proof.
       * destruct Icph as (A & B & C). rewrite flushn_nobuf by auto. auto.
       * destruct Icph as (A & B & C). rewrite flushn_nobuf by auto. auto.
       * destruct Icph as (A & B & C & D & E' & F). repeat split; auto.
-        -- apply fstream_stream_flushn; auto.
+        -- apply pstream_flushn; auto.
         -- rewrite fstream_flushn; auto.
         -- rewrite f_offset_flushn; auto.
   - (* value log *)
@@ -215,12 +219,12 @@ Proof.
     assert (s' = upd_files s (txl s) (cml s) (vls s) (f_flushn (ahd s) n) (ahc s)) by congruence. subst s'.
     constructor; unfold upd_files;
       cbn [s_cfg vls txl cml ahd ahc committed pbuf palh pts acked phase_ asize alatest acnt precommitted]; auto.
-    destruct Iaht as ((A1 & A2 & A3 & A4 & A5 & A6 & A7 & A8 & A9) & B). split; auto.
+    destruct Iaht as ((A1 & A2 & A3 & A4 & A5 & A6 & A7 & A8 & A9 & A10) & B). split; auto.
     unfold AInv in *. simp_st.
-    rewrite f_offset_flushn, durable_flushn. repeat split; auto. apply wf_flushn; auto.
+    rewrite f_offset_flushn. repeat split; auto. apply wf_flushn; auto.
   - (* tree commit log: nothing is ever buffered there between steps *)
     assert (s' = upd_files s (txl s) (cml s) (vls s) (ahd s) (f_flushn (ahc s) n)) by congruence. subst s'.
-    destruct Iaht as ((A1 & A2 & A3 & A4 & A5 & A6 & A7 & A8 & A9) & B).
+    destruct Iaht as ((A1 & A2 & A3 & A4 & A5 & A6 & A7 & A8 & A9 & A10) & B).
     simp_st. rewrite flushn_nobuf by auto.
     constructor; unfold upd_files;
       cbn [s_cfg vls txl cml ahd ahc committed pbuf palh pts acked phase_ asize alatest acnt precommitted]; auto.
@@ -237,7 +241,8 @@ Proof.
   destruct (Nat.eqb (length i) (length (vls s))); cbn [negb] in E; [|discriminate].
   destruct (if c_ahtsync (s_cfg s) then aht_sync (aht_of s) else Ok (aht_of s)) as [a| |] eqn:Ea;
     cbn [bind] in E; try discriminate.
-  destruct (f_setoffset (cml s) (44 * committed s)) as [c1|] eqn:Es; [|discriminate].
+  rewrite (proj1 (v_cfg _ _ _ _ I)) in E.
+  destruct (f_setoffset_gen false (cml s) (44 * committed s)) as [c1|] eqn:Es; [|discriminate].
   assert (s' = mkSt (s_cfg s) (f_sync (txl s)) (f_append c1 (pbuf_entries (pbuf s))) (vls s) (a_d a) (a_c a)
                     (committed s) (calh s) (pbuf s) (palh s) (pts s) (acked s) (PC (precommitted s))
                     (inflight s) (a_size a) (a_latest a) (a_cnt a)) by congruence.
@@ -251,8 +256,8 @@ Proof.
   subst s'. inv_fields I. rewrite Ep in Icph. destruct Icph as (P1 & P2 & P3 & P4 & P5).
   destruct Itdur as (T1 & T2 & T3 & T4). destruct Itview as (V1 & V2 & V3).
   destruct (f_sync_spec (txl s) Itwf) as (Y1 & Y2 & Y3 & Y4).
-  destruct (f_setoffset_spec _ _ _ Icwf Es) as (S1 & S2 & S3 & S4 & S5 & S6 & S7 & S8 & _ & S10).
-  specialize (S10 P2).
+  destruct (f_setoffset_spec _ _ _ _ Icwf Es) as (S1 & S2 & S3 & S4 & S5 & _ & _ & S7 & _ & S10 & _).
+  specialize (S10 P2). specialize (S5 ltac:(lia)).
   assert (Bc1: bufoff c1 = 44 * committed s) by (rewrite S7; lia).
   assert (Dp: dts h (precommitted s) = pts s) by (rewrite Iplen, dts_all, Ipts; reflexivity).
   assert (Fp: firstn (N.to_nat (precommitted s)) h = h) by (rewrite Iplen, Nnat.Nat2N.id; apply firstn_all).
@@ -274,9 +279,13 @@ Proof.
   - apply wf_append; auto.
   - cbn [f_append durable]. rewrite S4. auto.
   - rewrite Ipbuf, pbuf_entries_map. unfold fstream. cbn [f_append pending buf bufoff].
-    rewrite S5, P1, S10. cbn [app].
-    repeat split; auto; try lia; try (apply stream_tail; intros _; exact Bc1); try apply concat_w_tail.
-    unfold f_offset. cbn [f_append bufoff buf]. rewrite S10. cbn [app]. rewrite Bc1, Lsk. lia.
+    rewrite S5, S10. cbn [app].
+    assert (St: stream_from (44 * committed s) (tailw (bufoff c1) (entries (skipn (N.to_nat (committed s)) h))))
+      by (apply stream_tail; intros _; exact Bc1).
+    split; [reflexivity|]. split; [reflexivity|]. split; [lia|]. split; [|split].
+    + destruct P1 as [-> | ->]; cbn [app]; [left; exact St|right; eexists; split; [reflexivity|exact St]].
+    + destruct P1 as [-> | ->]; cbn [app]; [|rewrite concat_w_PT]; apply concat_w_tail.
+    + unfold f_offset. cbn [f_append bufoff buf]. rewrite S10. cbn [app]. rewrite Bc1, Lsk. lia.
   - split; [destruct a; exact IAa|]. rewrite Sza. destruct Iaht as (_ & B). exact B.
 Qed.
 
@@ -296,8 +305,15 @@ Proof.
   set (c := committed s) in *. set (p := precommitted s) in *.
   assert (Lsk: len (entries (skipn (N.to_nat c) h)) = 44 * (p - c)).
   { rewrite (entries_skipn_len _ _ _ _ _ Ichain) by lia. lia. }
-  assert (Dur: durable (f_sync (cml s)) = wr (durable (cml s)) (44 * c) (entries (skipn (N.to_nat c) h))).
-  { rewrite Y1, lview_as_writes. rewrite (apply_stream _ (44 * c)) by auto. rewrite P5. reflexivity. }
+  assert (Dur: exists m, 44 * c <= m /\
+     durable (f_sync (cml s)) = wr (take m (durable (cml s))) (44 * c) (entries (skipn (N.to_nat c) h))).
+  { rewrite Y1, lview_as_writes. destruct (pstream_apply _ _ (durable (cml s)) P4 C1) as (m & Hm & ->).
+    exists m. rewrite P5. auto. }
+  destruct Dur as (m & Hm & Dur).
+  assert (Lm: 44 * c <= len (take m (durable (cml s))) /\ len (take m (durable (cml s))) < 44 * c + 44)
+    by (rewrite len_take; lia).
+  assert (Tm: take (44 * c) (take m (durable (cml s))) = take (44 * c) (durable (cml s)))
+    by (apply take_take; lia).
   assert (Hent: entries (firstn (N.to_nat c) h) ++ entries (skipn (N.to_nat c) h) = entries h)
     by (rewrite <- entries_app, firstn_skipn; reflexivity).
   assert (Fp: firstn (N.to_nat p) h = h) by (rewrite Iplen, Nnat.Nat2N.id; apply firstn_all).
@@ -318,8 +334,8 @@ Proof.
   - apply wf_sync; auto.
   - rewrite Dur. rewrite len_wr by lia. rewrite Lsk. split; [lia|]. split; [lia|].
     replace (44 * p) with (44 * c + len (entries (skipn (N.to_nat c) h))) by lia.
-    rewrite take_wr_through by lia. rewrite C3, Hent, Fp. reflexivity.
-  - repeat split; auto. rewrite Y4. exact P6.
+    rewrite take_wr_through by lia. rewrite Tm, C3, Hent, Fp. reflexivity.
+  - split; [left; exact Y2|]. split; [exact Y3|]. rewrite Y4. exact P6.
   - auto.
 Qed.
 
@@ -336,7 +352,8 @@ Proof.
   destruct (phase_ s) as [| |] eqn:Eph; cbn [phase_idle negb] in E; try discriminate.
   destruct (nth_error (inflight s) i) as [[[[v vo] vn] hv]|] eqn:Ei; [|discriminate].
   destruct (N.leb_spec (committed s + c_maxact (s_cfg s)) (precommitted s)) as [|Hact]; [discriminate|].
-  destruct (f_setoffset (txl s) (pts s)) as [t1|] eqn:Es; [|discriminate].
+  rewrite (proj1 (v_cfg _ _ _ _ I)) in E.
+  destruct (f_setoffset_gen false (txl s) (pts s)) as [t1|] eqn:Es; [|discriminate].
   set (p := precommitted s) in *.
   set (body := enc_vref v vo vn hv ++ payload) in *.
   set (raw := enc_rec H (p + 1) (palh s) body) in *.
@@ -349,14 +366,15 @@ Proof.
   inv_fields I. rewrite Eph in Icph. destruct Icph as (P1 & P2 & P3).
   destruct Iaht as (IA & IAs).
   (* the tree: ResetSize is a no-op (sizes agree) or fails *)
-  assert (Ha1: aht_reset (aht_of s) p = Ok (aht_of s) /\ asize s = p \/ aht_reset (aht_of s) p = Err EOther).
+  assert (Ha1: aht_reset (c_ahtreset (s_cfg s)) (aht_of s) p = Ok (aht_of s) /\ asize s = p \/
+               aht_reset (c_ahtreset (s_cfg s)) (aht_of s) p = Err EOther).
   { unfold aht_reset. assert (Esz: a_size (aht_of s) = asize s) by reflexivity. rewrite Esz.
     destruct (N.ltb_spec (asize s) p); [right; reflexivity|].
     left. fold p in IAs. assert (asize s = p) by lia.
     destruct (N.eqb_spec (asize s) p); [auto|contradiction]. }
   destruct Ha1 as [[Ha1 Hsz]|Ha1]; rewrite Ha1 in E; cbn [bind] in E; [|discriminate].
   assert (Lalh: len alh = 32) by (unfold alh, alh_of; apply (H_len' H H_len)).
-  destruct (aht_append_ok _ _ alh IA Lalh) as (a2 & Ea & IA2 & Sz2 & _).
+  destruct (aht_append_ok _ _ alh IA Lalh) as (a2 & Ea & IA2 & Sz2).
   rewrite Ea in E. cbn [bind] in E.
   assert (s' = mkSt (s_cfg s) (f_append t1 raw) (cml s) (vls s) (a_d a2) (a_c a2) (committed s) (calh s)
                     (pbuf s ++ [(p + 1, alh, pts s, len raw)]) alh (pts s + len raw) (acked s) PIdle
@@ -375,7 +393,7 @@ Proof.
     - rewrite app_nil_r. rewrite <- Lraw. rewrite Hb. symmetry. apply take_all. }
   assert (Hlen: (N.to_nat (committed s) <= length h)%nat) by (fold p in Icd; lia).
   destruct Itdur as (T1 & T2 & T3 & T4). destruct Itview as (V1 & V2 & V3).
-  destruct (f_setoffset_spec _ _ _ Itwf Es) as (S1 & S2 & S3 & S4 & S5 & S6 & S7 & S8 & S9 & _).
+  destruct (f_setoffset_spec _ _ _ _ Itwf Es) as (S1 & S2 & S3 & S4 & _ & _ & S6 & S7 & S8 & _ & S11).
   specialize (S6 V1).
   assert (Dd: dts (h ++ [r]) d = dts h d) by (apply dts_app; fold p in Icd; lia).
   assert (Pn: precommitted (mkSt (s_cfg s) (f_append t1 raw) (cml s) (vls s) (a_d a2) (a_c a2) (committed s)
@@ -399,8 +417,9 @@ Proof.
   - rewrite last_alh_app. cbn [last_alh]. reflexivity.
   - rewrite raws_app, len_app. unfold raws at 2; cbn [map concat]. rewrite app_nil_r. cbn [t_raw r]. lia.
   - apply wf_append; auto.
-  - rewrite Dd. cbn [f_append durable pending bufoff]. rewrite S4, S5.
+  - rewrite Dd. cbn [f_append durable pending bufoff]. rewrite S4.
     rewrite firstn_app_le by (fold p in Icd; lia). repeat split; auto.
+    { apply S11; auto. pose proof (dts_le h d). lia. }
     destruct (N.le_gt_cases (bufoff (txl s)) (pts s)) as [Hle|Hgt].
     + rewrite (S7 Hle). auto.
     + rewrite (S8 Hgt). pose proof (dts_le h d). lia.
